@@ -24,7 +24,6 @@ grep -q 'if ci > 0 {' "$TP/go-cache/cache.go" || { echo "setup: go-cache anchor 
 sed -i 's/if ci > 0 {/if ci > 0 \&\& false { \/\/ VERIF: janitor goroutine not started (never exits; expiry is checked lazily in Get)/' "$TP/go-cache/cache.go"
 [ -f "$TP/go-cache/go.mod" ] || printf 'module github.com/patrickmn/go-cache\n\ngo 1.12\n' > "$TP/go-cache/go.mod"
 # harness module: go.sum from the repository (same dependency graph)
-cp $VERIF_REPO/go.sum sim/go.sum
 bin/gen_overlay.py >/dev/null
 bin/build.sh >/dev/null
 echo "setup: ok"
